@@ -698,3 +698,71 @@ def dataflow_shapes():
         'c': T(publish={'w': ['var', 'v']}), 'd': T()},
         input={'v': 0, 'w': 0}, output=out)
     return P
+
+
+# ------------------------------------------------------------------ pairs
+def feature_pairs():
+    """Every pair of language features applied to the first task of a small
+    skeleton  a -> b (on-success), a -> c (on-error), b/c -> d.
+    -> {name: (prog, [result assignments])}"""
+    feats = {
+        'publish': lambda p: p['tasks']['a'].update(
+            publish={'v': ['lit', 1]}),
+        'publish_err': lambda p: p['tasks']['a'].update(
+            {'publish-on-error': {'v': ['lit', 2]}}),
+        'guard_false': lambda p: p['tasks']['a'].update(
+            {'on-success': [['b', ['false']], 'd']}),
+        'guard_var': lambda p: p['tasks']['a'].update(
+            {'on-success': [['b', ['eq', 'v', 1]], ['d', ['eq', 'v', 0]]]}),
+        'cmd_fail': lambda p: p['tasks']['a'].update(
+            {'on-error': ['c', 'fail']}),
+        'cmd_succeed': lambda p: p['tasks']['a'].update(
+            {'on-success': ['succeed']}),
+        'cmd_noop': lambda p: p['tasks']['a'].update(
+            {'on-error': ['noop']}),
+        'retry': lambda p: p['tasks']['a'].update(
+            retry={'count': 1, 'delay': 0}),
+        'items': lambda p: (p['tasks']['a'].update(
+            {'with-items': 'i in <% $.xs %>'}),
+            p.setdefault('input', {}).update(xs=['a', 'a2'])),
+        'subwf': lambda p: (p['tasks']['a'].update(workflow='sub'),
+                            p.update(subs={'sub': direct(
+                                {'a': T(key='a')})})),
+        'join_d': lambda p: p['tasks']['d'].update(join='all'),
+        'defaults_err': lambda p: p.update(
+            {'task-defaults': {'on-error': ['c']}}),
+        'complete': lambda p: p['tasks']['a'].update(
+            {'on-complete': ['d']}),
+        'fail_on': lambda p: p['tasks']['a'].update(
+            {'fail-on': ['eq', 'v', 0]}),
+    }
+    incompatible = {frozenset(('items', 'subwf')),
+                    frozenset(('cmd_succeed', 'guard_false')),
+                    frozenset(('cmd_succeed', 'guard_var')),
+                    frozenset(('cmd_fail', 'cmd_noop')),
+                    frozenset(('guard_false', 'guard_var')),
+                    # (task-defaults on-error also applies to c and d: with
+                    # a join on d this is an unbounded cycle d -> c -> d)
+                    frozenset(('defaults_err', 'join_d'))}
+    out = {}
+    names = sorted(feats)
+    for f1, f2 in itertools.combinations(names, 2):
+        if frozenset((f1, f2)) in incompatible:
+            continue
+        p = direct({'a': T(**{'on-success': ['b'], 'on-error': ['c']}),
+                    'b': T(**{'on-success': ['d']}),
+                    'c': T(**{'on-success': ['d']}),
+                    'd': T()},
+                   input={'v': 0}, output={'v': ['var', 'v']})
+        feats[f1](p)
+        feats[f2](p)
+        keys = ['a', 'b', 'c', 'd']
+        if 'items' in (f1, f2):
+            keys = ['a', 'a2', 'b', 'c', 'd']
+        assigns = [{k: ['S'] for k in keys},
+                   {k: (['E'] if k == 'a' else ['S']) for k in keys}]
+        if 'retry' in (f1, f2):
+            assigns.append({k: (['E', 'S'] if k == 'a' else ['S'])
+                            for k in keys})
+        out['pair_%s_%s' % (f1, f2)] = (p, assigns)
+    return out
